@@ -1,3 +1,8 @@
+(* MOVED OUT OF coq/: by design this file compiles only against the UNREPAIRED source
+   (requeue_retr_checks_head = false): /repo at 3f4ec0c..e84bd86 (any commit before 8baf351 `fix: drop a speculative retrieve job ...`).
+   To replay: check out such a commit into a scratch tree T, then
+     VERIF_REPO=T python3 -c "import sys; sys.path[:0]=['/verif/lib','/verif/checks']; import schedx_part as sp; print(sp.model_exhibits('XF4Refuted'))"
+   (regenerates Gen/ for T in the alt tree and compiles this file against it). *)
 (* Finding F4, refutation for the source as it is NOW: compiles only while
    do_retrieve() re-queues on MORE without the test `offset >= head_offs`
    (Gen.SchedXTab.requeue_retr_checks_head = false).  The event list is the witness. *)
